@@ -164,7 +164,34 @@ pub fn step(st: &State, prec: &Prec, ps: &[P]) -> Exp {
     let mut reasons: Vec<Reject> = vec![];
     if omitted.len() >= 2 {
         reasons.push(Reject::TwoUnconstrained(omitted[0], omitted[1]));
-        // which other clauses would also fire is immaterial: the transaction cannot be inferred
+        // which other clauses would also fire is immaterial: the transaction cannot be inferred. One thing is still
+        // defined under file-order semantics: an assertion that stands before the second amount-less posting, on an
+        // account that only plain amounts have touched so far in this transaction, is about a known balance.
+        for i in 0..omitted[1] {
+            let p = &ps[i];
+            if p.amt.is_none() || p.bal == Bal::None {
+                continue;
+            }
+            if ps[..i].iter().any(|q| q.acct == p.acct && q.amt.is_none()) {
+                continue;
+            }
+            let mut acc = st.bal.get(p.acct).cloned().unwrap_or_default();
+            for q in ps[..=i].iter().filter(|q| q.acct == p.acct) {
+                let (v, c) = q.amt.as_ref().expect("plain amount");
+                if !c.is_empty() {
+                    qmap_add(&mut acc, c, Q::parse(v));
+                }
+            }
+            qmap_clean(&mut acc);
+            let holds = match &p.bal {
+                Bal::Zero => acc.is_empty(),
+                Bal::Val(v, c) => acc.get(*c).copied().unwrap_or(Q::ZERO) == Q::parse(v),
+                Bal::None => true,
+            };
+            if !holds {
+                reasons.push(Reject::AssertFalse(i, acc));
+            }
+        }
         return Exp::Reject(reasons);
     }
     if omitted_then_constraint_same_account(ps) == Some("assign") {
